@@ -22,7 +22,8 @@ RULE = ("structured phases: (a) trees lowered by the real create_ast_from_phase 
         "condition position, self-dependent statements with and without loops/guards, statement-level guards, "
         "and user names/ids equal to what the passes generate (tmp, tmp_0, temp, temp_y, ifthenelse_result, "
         "<cond>ifthenelse_cond, ...) incl. names occurring only in a loop bound, assignee subscript, loop "
-        "counter or tree condition; each pass alone and the generator's order, x 6 valuations x uninterpreted "
+        "counter or tree condition, names with upper-case letters, user functions registered under the name of a "
+        "variable; each pass alone and the generator's order, x 6 valuations x uninterpreted "
         "function tables. distinct = canonical JSON of (tree, pass); non-trivial = the pass changed the tree")
 ASSUMPTIONS = [
     "value semantics for arrays (the passes prepare code for Fortran); user functions are pure and "
